@@ -552,7 +552,15 @@ func (hb *HalfBlockImage) Resize(w int, h int) {
 		y *= 2
 
 		tr, tg, tb, ta := toRGB(img.At(x, y))
-		br, bg, bb, ba := toRGB(img.At(x, y+1))
+		var br, bg, bb, ba uint8
+		if y+1 < img.Bounds().Max.Y {
+			// the last row of an image of odd height has no lower
+			// pixel: the lower half of the cell stays transparent
+			// (At outside the bounds is not transparent for every
+			// image type: black for image.Gray, the first palette
+			// entry for image.Paletted)
+			br, bg, bb, ba = toRGB(img.At(x, y+1))
+		}
 		// Figure out if one of the alpha channels is transparent
 		// "enough"
 		switch {
